@@ -1,0 +1,341 @@
+//go:build verif
+
+package kafka
+
+import (
+	"bufio"
+	"bytes"
+	"errors"
+	"fmt"
+	"sort"
+	"strings"
+	"sync/atomic"
+)
+
+// Hooks for the /verif harness (build tag `verif` only), consumer-group part (properties C15, C03):
+// a mock group coordinator injected through the unexported ConsumerGroupConfig.connect field, whose every
+// call is handed to a harness-supplied handler (which may block: that is the schedule control), plus
+// accessors to the unexported pure pieces of the commit path.
+
+// VerifCoordCall describes one call made by the library on the (mock) coordinator connection.
+type VerifCoordCall struct {
+	Conn   int    // connection id handed out by connect (1, 2, ...); the id being created for "connect"
+	Method string // connect close findCoordinator joinGroup syncGroup leaveGroup heartbeat offsetFetch offsetCommit readPartitions
+
+	Addrs        []string // connect
+	GroupID      string
+	MemberID     string
+	GenerationID int32
+	Topics       []string                      // joinGroup: subscribed topics (first protocol); readPartitions; offsetFetch (request order)
+	Protocols    []string                      // joinGroup: offered protocol names
+	Partitions   map[string][]int32            // offsetFetch
+	Offsets      map[string]map[int]int64      // offsetCommit
+	Assign       map[string]map[string][]int32 // syncGroup: member -> topic -> partitions (nil when not leader)
+}
+
+// VerifGroupOffset is one partition entry of an OffsetFetch response (list form: order and duplicates are kept).
+type VerifGroupOffset struct {
+	Topic     string
+	Partition int32
+	Offset    int64
+}
+
+// VerifGroupMember is one member entry of a JoinGroup response (leader only).
+type VerifGroupMember struct {
+	ID       string
+	Topics   []string
+	UserData []byte
+}
+
+// VerifCoordReply is the scripted answer.
+type VerifCoordReply struct {
+	Err       error // returned as the call's error (what Conn does for non-zero error codes and network failures)
+	ErrorCode int16 // placed into the response's own ErrorCode field (findCoordinator, joinGroup, syncGroup)
+
+	Host string // findCoordinator
+	Port int32
+
+	MemberID     string // joinGroup
+	LeaderID     string
+	GenerationID int32
+	Protocol     string
+	Members      []VerifGroupMember
+
+	Assignments map[string][]int32 // syncGroup: this member's assignment
+	RawAssign   []byte             // syncGroup: raw bytes instead (when non-nil)
+
+	Committed []VerifGroupOffset // offsetFetch
+
+	Parts []Partition // readPartitions
+}
+
+// VerifCoordHandler answers one call; it runs on the calling goroutine of the library and may block.
+type VerifCoordHandler func(VerifCoordCall) VerifCoordReply
+
+var verifGroupHandler atomic.Value // of VerifCoordHandler (possibly nil func)
+
+// VerifSetGroupHandler installs (or with nil removes) the handler used by every ConsumerGroupConfig that is
+// validated afterwards without an explicit connect function (ConsumerGroup and group Readers).
+func VerifSetGroupHandler(h VerifCoordHandler) { verifGroupHandler.Store(h) }
+
+var verifGroupConnSeq int32
+
+// verifGroupConnect is called from ConsumerGroupConfig.Validate (guarded by verifOn).
+func verifGroupConnect(config *ConsumerGroupConfig) {
+	h, _ := verifGroupHandler.Load().(VerifCoordHandler)
+	if h == nil || config.connect != nil {
+		return
+	}
+	config.connect = func(dialer *Dialer, brokers ...string) (coordinator, error) {
+		id := int(atomic.AddInt32(&verifGroupConnSeq, 1))
+		r := h(VerifCoordCall{Conn: id, Method: "connect", Addrs: append([]string(nil), brokers...)})
+		if r.Err != nil {
+			return nil, r.Err
+		}
+		return &verifMockCoordinator{id: id, h: h}, nil
+	}
+}
+
+// VerifGroupResetConnIDs restarts the connection numbering (between scenarios).
+func VerifGroupResetConnIDs() { atomic.StoreInt32(&verifGroupConnSeq, 0) }
+
+type verifMockCoordinator struct {
+	id int
+	h  VerifCoordHandler
+}
+
+func (m *verifMockCoordinator) Close() error {
+	m.h(VerifCoordCall{Conn: m.id, Method: "close"})
+	return nil
+}
+
+func (m *verifMockCoordinator) findCoordinator(req findCoordinatorRequestV0) (findCoordinatorResponseV0, error) {
+	r := m.h(VerifCoordCall{Conn: m.id, Method: "findCoordinator", GroupID: req.CoordinatorKey})
+	if r.Err != nil {
+		return findCoordinatorResponseV0{}, r.Err
+	}
+	return findCoordinatorResponseV0{ErrorCode: r.ErrorCode, Coordinator: findCoordinatorResponseCoordinatorV0{NodeID: 1, Host: r.Host, Port: r.Port}}, nil
+}
+
+func (m *verifMockCoordinator) joinGroup(req joinGroupRequest) (joinGroupResponse, error) {
+	c := VerifCoordCall{Conn: m.id, Method: "joinGroup", GroupID: req.GroupID, MemberID: req.MemberID}
+	for i, p := range req.GroupProtocols {
+		c.Protocols = append(c.Protocols, p.ProtocolName)
+		if i == 0 {
+			var md groupMetadata
+			if _, err := (&md).readFrom(bufio.NewReader(bytes.NewReader(p.ProtocolMetadata)), len(p.ProtocolMetadata)); err == nil {
+				c.Topics = md.Topics
+			}
+		}
+	}
+	r := m.h(c)
+	if r.Err != nil {
+		return joinGroupResponse{}, r.Err
+	}
+	resp := joinGroupResponse{ErrorCode: r.ErrorCode, GenerationID: r.GenerationID, GroupProtocol: r.Protocol, LeaderID: r.LeaderID, MemberID: r.MemberID}
+	for _, mem := range r.Members {
+		resp.Members = append(resp.Members, joinGroupResponseMember{
+			MemberID:       mem.ID,
+			MemberMetadata: groupMetadata{Version: 1, Topics: mem.Topics, UserData: mem.UserData}.bytes(),
+		})
+	}
+	return resp, nil
+}
+
+func (m *verifMockCoordinator) syncGroup(req syncGroupRequestV0) (syncGroupResponseV0, error) {
+	c := VerifCoordCall{Conn: m.id, Method: "syncGroup", GroupID: req.GroupID, MemberID: req.MemberID, GenerationID: req.GenerationID}
+	if req.GroupAssignments != nil {
+		c.Assign = map[string]map[string][]int32{}
+		for _, ga := range req.GroupAssignments {
+			var a groupAssignment
+			if _, err := (&a).readFrom(bufio.NewReader(bytes.NewReader(ga.MemberAssignments)), len(ga.MemberAssignments)); err == nil {
+				c.Assign[ga.MemberID] = a.Topics
+			}
+		}
+	}
+	r := m.h(c)
+	if r.Err != nil {
+		return syncGroupResponseV0{}, r.Err
+	}
+	raw := r.RawAssign
+	if raw == nil {
+		topics := r.Assignments
+		if topics == nil {
+			topics = map[string][]int32{}
+		}
+		raw = groupAssignment{Version: 1, Topics: topics}.bytes()
+	}
+	return syncGroupResponseV0{ErrorCode: r.ErrorCode, MemberAssignments: raw}, nil
+}
+
+func (m *verifMockCoordinator) leaveGroup(req leaveGroupRequestV0) (leaveGroupResponseV0, error) {
+	r := m.h(VerifCoordCall{Conn: m.id, Method: "leaveGroup", GroupID: req.GroupID, MemberID: req.MemberID})
+	return leaveGroupResponseV0{}, r.Err
+}
+
+func (m *verifMockCoordinator) heartbeat(req heartbeatRequestV0) (heartbeatResponseV0, error) {
+	r := m.h(VerifCoordCall{Conn: m.id, Method: "heartbeat", GroupID: req.GroupID, MemberID: req.MemberID, GenerationID: req.GenerationID})
+	return heartbeatResponseV0{}, r.Err
+}
+
+func (m *verifMockCoordinator) offsetFetch(req offsetFetchRequestV1) (offsetFetchResponseV1, error) {
+	c := VerifCoordCall{Conn: m.id, Method: "offsetFetch", GroupID: req.GroupID, Partitions: map[string][]int32{}}
+	for _, t := range req.Topics {
+		c.Topics = append(c.Topics, t.Topic)
+		c.Partitions[t.Topic] = append([]int32(nil), t.Partitions...)
+	}
+	r := m.h(c)
+	if r.Err != nil {
+		return offsetFetchResponseV1{}, r.Err
+	}
+	return verifGroupOffsetFetchResponse(r.Committed), nil
+}
+
+// verifGroupOffsetFetchResponse groups consecutive entries of the same topic into one topic response.
+func verifGroupOffsetFetchResponse(entries []VerifGroupOffset) offsetFetchResponseV1 {
+	var resp offsetFetchResponseV1
+	for _, e := range entries {
+		n := len(resp.Responses)
+		if n == 0 || resp.Responses[n-1].Topic != e.Topic {
+			resp.Responses = append(resp.Responses, offsetFetchResponseV1Response{Topic: e.Topic})
+			n++
+		}
+		resp.Responses[n-1].PartitionResponses = append(resp.Responses[n-1].PartitionResponses,
+			offsetFetchResponseV1PartitionResponse{Partition: e.Partition, Offset: e.Offset})
+	}
+	return resp
+}
+
+func (m *verifMockCoordinator) offsetCommit(req offsetCommitRequestV2) (offsetCommitResponseV2, error) {
+	c := VerifCoordCall{Conn: m.id, Method: "offsetCommit", GroupID: req.GroupID, MemberID: req.MemberID, GenerationID: req.GenerationID,
+		Offsets: map[string]map[int]int64{}}
+	for _, t := range req.Topics {
+		if c.Offsets[t.Topic] == nil {
+			c.Offsets[t.Topic] = map[int]int64{}
+		}
+		for _, p := range t.Partitions {
+			c.Offsets[t.Topic][int(p.Partition)] = p.Offset
+		}
+	}
+	r := m.h(c)
+	return offsetCommitResponseV2{}, r.Err
+}
+
+func (m *verifMockCoordinator) readPartitions(topics ...string) ([]Partition, error) {
+	r := m.h(VerifCoordCall{Conn: m.id, Method: "readPartitions", Topics: append([]string(nil), topics...)})
+	return r.Parts, r.Err
+}
+
+// VerifGroupEmit records a harness-side event in the same totally ordered log as the library's hook events.
+func VerifGroupEmit(kind string, args ...interface{}) { verifEvent(kind, args...) }
+
+// verifGroupErr renders an error as a small class: nil | closed | k<code> | other.
+func verifGroupErr(err error) string {
+	if err == nil {
+		return "nil"
+	}
+	if errors.Is(err, ErrGroupClosed) {
+		return "closed"
+	}
+	var ke Error
+	if errors.As(err, &ke) {
+		return fmt.Sprintf("k%d", int(ke))
+	}
+	return "other"
+}
+
+// VerifGroupErrClass exposes verifGroupErr.
+func VerifGroupErrClass(err error) string { return verifGroupErr(err) }
+
+// VerifGroupCommit is the exported shape of the unexported commit type.
+type VerifGroupCommit struct {
+	Topic     string
+	Partition int
+	Offset    int64
+}
+
+// VerifGroupMakeCommits exposes makeCommits.
+func VerifGroupMakeCommits(msgs ...Message) []VerifGroupCommit {
+	cs := makeCommits(msgs...)
+	out := make([]VerifGroupCommit, len(cs))
+	for i, c := range cs {
+		out[i] = VerifGroupCommit{c.topic, c.partition, c.offset}
+	}
+	return out
+}
+
+// VerifGroupStashMerge exposes offsetStash.merge (in place on the given stash).
+func VerifGroupStashMerge(stash map[string]map[int]int64, commits []VerifGroupCommit) {
+	cs := make([]commit, len(commits))
+	for i, c := range commits {
+		cs[i] = commit{topic: c.Topic, partition: c.Partition, offset: c.Offset}
+	}
+	offsetStash(stash).merge(cs)
+}
+
+// verifOneShotCoordinator answers offsetFetch with a fixed response.
+type verifOneShotCoordinator struct {
+	verifMockCoordinator
+	resp offsetFetchResponseV1
+	err  error
+}
+
+func (o *verifOneShotCoordinator) offsetFetch(offsetFetchRequestV1) (offsetFetchResponseV1, error) {
+	return o.resp, o.err
+}
+
+// VerifGroupStartOffsets runs the real fetchOffsets + makeAssignments of a ConsumerGroup configured with the given
+// topics and StartOffset on the assignment `subs` and the coordinator's OffsetFetch answer `committed`.
+func VerifGroupStartOffsets(topics []string, startOffset int64, subs map[string][]int32, committed []VerifGroupOffset, fetchErr error) (map[string][]PartitionAssignment, error) {
+	cg := &ConsumerGroup{config: ConsumerGroupConfig{ID: "g", Topics: topics, StartOffset: startOffset}}
+	conn := &verifOneShotCoordinator{resp: verifGroupOffsetFetchResponse(committed), err: fetchErr}
+	offsets, err := cg.fetchOffsets(conn, subs)
+	if err != nil {
+		return nil, err
+	}
+	return cg.makeAssignments(subs, offsets), nil
+}
+
+// verifGroupCommits renders a commit list canonically: "t/p@o,t/p@o" (request order), "-" when empty.
+func verifGroupCommits(cs []commit) string {
+	if len(cs) == 0 {
+		return "-"
+	}
+	parts := make([]string, len(cs))
+	for i, c := range cs {
+		parts[i] = fmt.Sprintf("%s/%d@%d", c.topic, c.partition, c.offset)
+	}
+	return strings.Join(parts, ",")
+}
+
+// verifGroupAssignments renders generation assignments canonically, sorted by topic then list order.
+func verifGroupAssignments(a map[string][]PartitionAssignment) string {
+	var parts []string
+	topics := make([]string, 0, len(a))
+	for t := range a {
+		topics = append(topics, t)
+	}
+	sort.Strings(topics)
+	for _, t := range topics {
+		for _, p := range a[t] {
+			parts = append(parts, fmt.Sprintf("%s/%d@%d", t, p.ID, p.Offset))
+		}
+	}
+	if len(parts) == 0 {
+		return "-"
+	}
+	return strings.Join(parts, ",")
+}
+
+// verifGroupOffsets renders the offsets a Reader subscribes with, sorted.
+func verifGroupOffsets(m map[topicPartition]int64) string {
+	var parts []string
+	for k, v := range m {
+		parts = append(parts, fmt.Sprintf("%s/%d@%d", k.topic, k.partition, v))
+	}
+	sort.Strings(parts)
+	if len(parts) == 0 {
+		return "-"
+	}
+	return strings.Join(parts, ",")
+}
